@@ -195,14 +195,18 @@ Section Refine.
   Notation sstep := (spec_step children fuel).
   Notation srun := (spec_run children fuel).
 
-  Definition is_eval (o : op) : bool := match o with QueryE _ | DeclV _ | EvalV _ => true | _ => false end.
-  Definition no_eval (h : list op) : bool := forallb (fun o => negb (is_eval o)) h.
+  (* live (partially consumed) evaluations are outside this refinement: the order of their rows is the runtime's choice *)
+  Definition is_live (o : op) : bool := match o with StartV _ | NextV _ _ | CloseV _ => true | _ => false end.
+  Definition no_live (h : list op) : bool := forallb (fun o => negb (is_live o)) h.
 
   (* the model state and the ideal state describe the same world *)
   Record Sim (s : st) (a : ast) : Prop := {
     sim_live : live s = a_live a;
+    sim_user : user s = a_user a;
     sim_next : next s = a_next a;
-    sim_vars : vars s = [];
+    sim_vars : vars s = a_vars a;
+    sim_evals : evals s = [];
+    sim_aevals : a_evals a = [];
     sim_rels : forall x, In x (abs_rels (live s) (g s)) <-> In x (a_rels a) }.
 
   (* outputs agree: relation assertions exactly; queries are compared by C13 *)
@@ -211,6 +215,7 @@ Section Refine.
     | OBool b, OBool b' => b = b'
     | OInst _, OInst _ => True
     | ONone, ONone => True
+    | OErr, OErr => True
     | _, _ => False
     end.
 
@@ -227,20 +232,24 @@ Section Refine.
     intros _. apply find_obj in F. apply mem_obj_true. exists x. tauto.
   Qed.
 
-  Lemma step_Sim s a o : Inv s -> adm s o = true -> is_eval o = false -> Sim s a ->
+  Lemma step_Sim s a o : Inv s -> adm s o = true -> is_live o = false -> Sim s a ->
     Sim (fst (step s o)) (fst (sstep a o)) /\ out_rel (snd (step s o)) (snd (sstep a o)).
   Proof.
-    intros HI Ha He [S1 S2 S3 S4]. destruct HI as [A B C D].
-    destruct o as [c p i|x| |T|T|T|k|x f y ia ib|]; simpl in *; try discriminate.
+    intros HI Ha He [S1 S0 S2 S3 S5 S6 S4]. destruct HI as [A B C D].
+    destruct o as [c p i|x| |T|T|T|k|k|n y|n|x f y ia ib|]; simpl in *; try discriminate.
     - split; auto. constructor; simpl; try congruence.
       intros z. rewrite abs_rels_add_node with (L0 := live s); auto.
       + rewrite abs_rels_new_live with (L0 := live s); auto. simpl. intro Hin. apply in_map_iff in Hin.
         destruct Hin as [w [E Hw]]. apply D in Hw. lia.
       + apply andb_true_iff in Ha. tauto.
-    - rewrite S3. simpl. split; auto. constructor; simpl; try congruence.
+    - rewrite S5, S6. simpl. split; auto. constructor; simpl; try congruence.
       intros [[u f] v]. rewrite abs_rels_drop by apply A. rewrite filter_In, S4, andb_true_iff, !negb_true_iff, !Nat.eqb_neq. tauto.
     - split; auto. constructor; simpl; auto. intros z. rewrite abs_rels_sweep; auto.
     - split; auto. constructor; simpl; auto. intros z. rewrite abs_rels_sweep; auto.
+    - split; auto. constructor; simpl; auto; try congruence. intros z. rewrite abs_rels_sweep; auto.
+    - split; auto. constructor; simpl; auto; congruence.
+    - rewrite <- S3. destruct (nth_error (vars s) k); simpl; split; auto; constructor; simpl; auto.
+      intros z. rewrite abs_rels_sweep; auto.
     - (* Relate *)
       assert (Hx : mem_obj x (a_live a) = true).
       { rewrite <- S1. apply andb_true_iff in Ha. destruct Ha as [Ha _]. eapply adm_ensure_live; eauto. }
@@ -253,10 +262,10 @@ Section Refine.
       rewrite Q. destruct (existsb (rel_eqb (x, f, y)) (a_rels a)) eqn:X; simpl; split; auto; constructor; simpl; auto.
       + intros z. rewrite Hr', S4. apply existsb_rel in X. split; [intros [->|?]; auto|auto].
       + intros z. rewrite Hr', S4, in_app_iff. simpl. intuition.
-    - split; auto. constructor; simpl; auto; try (rewrite S3; reflexivity); tauto.
+    - split; auto. constructor; simpl; auto; try (rewrite S5; reflexivity); tauto.
   Qed.
 
-  Theorem run_Sim : forall h s a, Inv s -> adm_run s h = true -> no_eval h = true -> Sim s a ->
+  Theorem run_Sim : forall h s a, Inv s -> adm_run s h = true -> no_live h = true -> Sim s a ->
     Sim (fst (run s h)) (fst (srun a h)) /\ Forall2 out_rel (snd (run s h)) (snd (srun a h)).
   Proof.
     induction h as [|o h IH]; simpl; intros s a HI Ha He HS; [split; auto|].
